@@ -5,10 +5,13 @@ import RpmVerif.Spec.FileMode
   `fm32 N`              – `FileMode::from(N as i32)` and `FileMode::try_from_raw(N)`, N an `i32`
   `fmctor K P`          – `FileMode::regular / dir / symbolic_link (P as u16)`, K ∈ reg | dir | sym
   `fm32blk START COUNT` – the integers START … START+COUNT−1 through `FileMode::from(i32)`, digested
-Observation of one value: `kind,raw,type,perm,u16,u32,err,stored`
+Observation of one value: `kind,raw,type,perm,u16,u32,err,stored,field,rt,heq,reason`
   kind ∈ dir | reg | sym | inv | other; `raw_mode()`, `file_type()`, `permissions()`, `u16::from` as 4 hex
   digits, `u32::from` as 8; err ∈ ok | err (`to_result` / `try_from_raw`); stored = the `raw_mode`
-  field of `Invalid` in decimal, `-` for the other variants.
+  field of `Invalid` in decimal, `-` for the other variants; field = the `permissions` FIELD of the variant read by
+  pattern matching (4 hex digits, `-` for `Invalid`); rt = 1 when `FileMode::from(m.raw_mode()) == m`; heq = 1 when the
+  two hash alike (`DefaultHasher`); reason ∈ u | o | x | - : the `reason` of an `Invalid` is the one `From<u16>` gives an
+  unknown type / the one `From<i32>` gives an out-of-range integer / neither / not an `Invalid`.
 Observation of a block: `digest,ninvalid,firstbad` — a 64-bit digest over the per-value observations,
   the number of values reported invalid (variant `Invalid` and an error), and the first value that was
   not (or `-`).
@@ -32,11 +35,20 @@ def parseKind : String → Option Kind
 
 def fmtObs (o : Obs) : String :=
   ",".intercalate [kindStr o.kind, hexW 4 o.raw, hexW 4 o.ftype, hexW 4 o.perm, hexW 4 o.back16, hexW 8 o.back32,
-    (if o.err then "err" else "ok"), (match o.stored with | some n => toString n | none => "-")]
+    (if o.err then "err" else "ok"), (match o.stored with | some n => toString n | none => "-"),
+    (match o.field with | some f => hexW 4 f | none => "-"), (if o.rtEq then "1" else "0"), (if o.hashEq then "1" else "0"),
+    (match o.reason with | some .unknownFileType => "u" | some .outOf16BitBounds => "o" | none => "-")]
+
+def parseReason : String → Option (Option Reason)
+  | "u" => some (some Reason.unknownFileType)
+  | "o" => some (some Reason.outOf16BitBounds)
+  | "-" => some none
+  | "x" => some none
+  | _ => none
 
 def parseObs (s : String) : Option Obs :=
   match s.splitOn "," with
-  | [k, r, t, p, b16, b32, e, st] => do
+  | [k, r, t, p, b16, b32, e, st, fl, rt, hq, rs] => do
     let kind ← parseKind k
     let raw ← parseHex r
     let ftype ← parseHex t
@@ -45,7 +57,11 @@ def parseObs (s : String) : Option Obs :=
     let back32 ← parseHex b32
     let err ← (match e with | "err" => some true | "ok" => some false | _ => none)
     let stored ← (if st == "-" then some none else st.toInt?.map some)
-    pure { kind, raw, ftype, perm, back16, back32, err, stored }
+    let field ← (if fl == "-" then some none else (parseHex fl).map some)
+    let rtEq ← (match rt with | "1" => some true | "0" => some false | _ => none)
+    let hashEq ← (match hq with | "1" => some true | "0" => some false | _ => none)
+    let reason ← parseReason rs
+    pure { kind, raw, ftype, perm, back16, back32, err, stored, field, rtEq, hashEq, reason }
   | _ => none
 
 /-- verdict of a Bool spec on the implementation's observation text -/
@@ -72,7 +88,9 @@ def digestObs (h : UInt64) (o : Obs) : UInt64 :=
   let x1 := kindCode o.kind + (if o.err then 8 else 0) + o.raw * 256 + o.ftype * 16777216 + o.perm * 1099511627776
   let x2 := o.back16 + o.back32 * 65536
   let x3 := match o.stored with | some n => (n % 4294967296).toNat | none => 4294967296
-  mix (mix (mix h x1.toUInt64) x2.toUInt64) x3.toUInt64
+  let x4 := (match o.field with | some f => f | none => 65536) + (if o.rtEq then 131072 else 0) + (if o.hashEq then 262144 else 0)
+    + (match o.reason with | some .unknownFileType => 524288 | some .outOf16BitBounds => 1048576 | none => 0)
+  mix (mix (mix (mix h x1.toUInt64) x2.toUInt64) x3.toUInt64) x4.toUInt64
 
 structure Blk where
   h : UInt64
